@@ -88,9 +88,10 @@ func specs() []*Spec {
 			Assume: []string{"math/big of the Go toolchain"},
 		},
 		{
-			ID:     "C10",
-			Units:  []Unit{{Pkg: "internal/ge25519", Job: "C10", Quick: []string{"default", "force32bit"}, Thorough: []string{"default", "force32bit", "386", "noasm+appengine"}}},
-			Rule:   "E1 enumeration: every y in [0,2^14) (thorough 2^18) x sign bit; the 2^9 (2^12) largest 255-bit y x sign (all 19 y >= p included); 2^k, 2^k+-1 for k < 255 x sign; public keys of 64 seeds. For each string: decodability == Euler criterion of the model, Pack(UnpackVartime(s)) == canonical encoding of the model's point, UnpackNegativeVartime gives the negation, Z = 1 and T = XY, decode-encode-decode is stable; both square-root branches (candidate root / root times sqrt(-1)), x = 0 and y >= p classes must be non-empty. Pack of non-normalised representations: 8 torsion + 26 (thorough 502) points x Z in {1,2,p-1,2^255-20,a0,19}, and with limbs left unreduced by one Add/Sub. non-trivial = decodable string or Pack case. (The X25519 conversion's use of decoding is C12.)",
+			ID: "C10",
+			Units: []Unit{{Pkg: "internal/ge25519", Job: "C10", Quick: []string{"default", "force32bit"}, Thorough: []string{"default", "force32bit", "386", "noasm+appengine"}},
+				{Pkg: "extra/x25519", Job: "C10x", Quick: []string{"default", "force32bit"}, Thorough: []string{"default", "force32bit", "386"}}},
+			Rule:   "E1 enumeration: every y in [0,2^14) (thorough 2^18) x sign bit; the 2^9 (2^12) largest 255-bit y x sign (all 19 y >= p included); 2^k, 2^k+-1 for k < 255 x sign; public keys of 64 seeds. For each string: decodability == Euler criterion of the model, Pack(UnpackVartime(s)) == canonical encoding of the model's point, UnpackNegativeVartime gives the negation, Z = 1 and T = XY, decode-encode-decode is stable; both square-root branches (candidate root / root times sqrt(-1)), x = 0 and y >= p classes must be non-empty. Pack of non-normalised representations: 8 torsion + 26 (thorough 502) points x Z in {1,2,p-1,2^255-20,a0,19}, and with limbs left unreduced by one Add/Sub. non-trivial = decodable string or Pack case. The Ed25519-to-X25519 public-key conversion is run on the same string alphabet (job C10x): it must accept exactly the decodable strings and return the canonical (1+y)/(1-y).",
 			Assume: append(trusted, "field Contract/Expand as decided by C18"),
 		},
 		{
